@@ -305,7 +305,7 @@ class System:
                               for k, v in self.model.items()))), tuple(self.progress))
 
 
-def build(kind: str, history: Tuple[tuple, ...]) -> Tuple[System, List[Tuple[str, Dict[str, Any], Any]]]:
+def build(kind: str, history: Tuple[tuple, ...], audit_last: bool = False) -> Tuple[System, List[Tuple[str, Dict[str, Any], Any]]]:
     system = System(kind)
     bad: List[Tuple[str, Dict[str, Any], Any]] = []
     for i, op in enumerate(history):
@@ -314,7 +314,45 @@ def build(kind: str, history: Tuple[tuple, ...]) -> Tuple[System, List[Tuple[str
             bad = found
             if op[0] == 'advance':
                 bad = bad + system.audit('advance')
+            elif audit_last and op[0] not in ('continue', 'save_bad'):
+                bad = bad + system.audit('history') + system.apply(('list',))
     return system, bad
+
+
+def focused_operations(kind: str) -> List[tuple]:
+    """The sub-alphabet of the undeduplicated search: everything about one key (process 0, one tag) plus what can interfere
+    with it (the untagged checkpoint of the same process, the deletion of all its checkpoints, its progress)."""
+    tags = TAGS_BY_KIND[kind]
+    t = tags[1]
+    return [('save', 0, t), ('advance', 0), ('load', 0, t), ('delete', 0, t), ('save', 0, tags[0]), ('delete_proc', 0),
+            ('continue', 0, t), ('list',)]
+
+
+def histories(args: Tuple[str, int, tuple]) -> Dict[str, Any]:
+    """Every history of exactly the given first operation followed by up to depth-1 more operations of the focused
+    alphabet - *without* merging histories that reach the same canonical state: a persister that keeps something besides
+    its store (a cache of what it wrote or read) differs between histories the canonical state cannot tell apart.  After
+    the last operation of every history all stored keys are loaded from both persisters and the listings compared."""
+    kind, depth, first = args
+    ops = focused_operations(kind)
+    out: Dict[str, Any] = {'n': 0, 'violations': [], 'overwrites': 0}
+    stack: List[Tuple[tuple, ...]] = [(first,)]
+    while stack:
+        hist = stack.pop()
+        with explore.watchdog(4 * explore.WATCHDOG_S):
+            system, bad = build(kind, hist, audit_last=True)
+        system.close()
+        out['n'] += 1
+        if hist[-1][0] == 'save' and hist[-1] in hist[:-1]:
+            out['overwrites'] += 1
+        for clause, feats, detail in bad:
+            if len(out['violations']) < 40:
+                out['violations'].append({'clause': clause, 'features': dict(feats, search='histories'), 'detail': detail,
+                                          'case': {'id_kind': kind, 'history': hist, 'audit_last': True}})
+        if len(hist) < depth:
+            for op in ops:
+                stack.append(hist + (op,))
+    return out
 
 
 def bfs(args: Tuple[str, int, int]) -> Dict[str, Any]:
@@ -369,6 +407,15 @@ def run_check(tier: str, seed: int, workers: Any) -> Dict[str, Any]:
             total['closed'] = total['closed'] and res['closed']
             total['max_depth'] = max(total['max_depth'], res['max_depth'])
             total['violations'].extend(res['violations'])
+    depth = 4 if tier == 'quick' else 5
+    hjobs = [(kind, depth, op) for kind in ID_KINDS for op in focused_operations(kind)]
+    n_hist = 0
+    with mp.get_context('fork').Pool(min(len(hjobs), workers or os.cpu_count() or 1)) as pool:
+        for res in pool.imap_unordered(histories, hjobs):
+            n_hist += res['n']
+            total['transitions'] += res['n']
+            total['overwrites'] += res['overwrites']
+            total['violations'].extend(res['violations'])
     best: Dict[Any, Any] = {}
     for v in total['violations']:
         key = (v['clause'], repr(sorted(v['features'].items())))
@@ -383,7 +430,11 @@ def run_check(tier: str, seed: int, workers: Any) -> Dict[str, Any]:
                 'processes x tags, for integer, UUID and string ids (ids and tags chosen so that one is a string prefix of '
                 'the other); canonical state = stored (pid, tag) -> snapshot version + progress of the live processes; '
                 'both persisters driven in lock-step and compared with a dictionary model after every operation; '
-                'distinct_nontrivial = transitions that overwrite an existing key',
+                'distinct_nontrivial = transitions that overwrite an existing key || every history (no merging of histories) '
+                f'of <= {depth} operations over the focused alphabet of one key (save / advance / load / delete / continue of '
+                '(process 0, tag), save of its untagged checkpoint, deletion of all its checkpoints, listing), each followed '
+                'by a load of every stored key from both persisters and the listing',
+        'undeduplicated_histories': n_hist, 'history_depth': depth,
         'samples': [{'id_kind': jobs[0][0], 'history': [list(map(repr, op)) for op in operations(jobs[0][0], 2)[:4]]}],
         'exhaustive': True, 'closure_reached': total['closed'], 'max_depth': total['max_depth'],
         'depth_bound': max(j[2] for j in jobs),
@@ -398,6 +449,6 @@ def replay(doc: Dict[str, Any]) -> List[dict]:
     from ..cli import to_tuple
     case = doc['case']
     history = to_tuple(case['history'])
-    system, bad = build(case['id_kind'], history)
+    system, bad = build(case['id_kind'], history, audit_last=bool(case.get('audit_last')))
     system.close()
     return [{'clause': c, 'features': f, 'detail': d, 'case': case} for c, f, d in bad]
